@@ -222,10 +222,12 @@ func vpInputs0(local bool) (a, b []byte, m SubstitutionMatrix) {
 	switch {
 	case which == 0 && local:
 		k := vpCase("alpha")
-		return vpSeq("a", n, k), vpSeq("b", mm, k), vpMatrix(k, 8, -8, 0, vpCase("openLo"), vpCase("openHi"))
+		r := vpCaseOr("range", 8) // scores in [-range, range]: a large range reaches integers no float32 holds
+		return vpSeq("a", n, k), vpSeq("b", mm, k), vpMatrix(k, r, -r, 0, vpCase("openLo"), vpCase("openHi"))
 	case which == 0:
 		k := vpCase("alpha")
-		return vpSeq("a", n, k), vpSeq("b", mm, k), vpMatrix(k, 8, -8, 8, vpCase("openLo"), vpCase("openHi"))
+		r := vpCaseOr("range", 8)
+		return vpSeq("a", n, k), vpSeq("b", mm, k), vpMatrix(k, r, -r, r, vpCase("openLo"), vpCase("openHi"))
 	case which == 7:
 		return vpAnySeq("a", n), vpAnySeq("b", mm), Levenshtein
 	case which == 8 || which == 9 || which == 10:
